@@ -231,7 +231,7 @@ theorem DiskOK.journal_create {cfg : Cfg} {d : Disk} {must issued : List Grp}
 theorem DiskOK.journal_remove {cfg : Cfg} {d : Disk} {must issued : List Grp}
     (h : DiskOK cfg d must issued) (n : Nat)
     (hn : ∀ mf, curManifest d = some mf → ∀ k ≤ mf.unsynced.length, ∀ v, viewAt cfg mf k = some v →
-      n < v.jn ∨ ∀ p ∈ d.journals, p.1 = n → p.2.all = []) :
+      n < v.jn ∨ ∀ p ∈ d.journals, p.1 = n → ∀ g ∈ p.2.all, g ∉ must) :
     DiskOK cfg { d with journals := d.journals.erase n } must issued := by
   obtain ⟨mf, v0, hp⟩ := h.parts
   have hrel : ∀ jn, ∀ q ∈ relJournals { d with journals := d.journals.erase n } jn, q ∈ relJournals d jn := by
@@ -259,10 +259,7 @@ theorem DiskOK.journal_remove {cfg : Cfg} {d : Disk} {must issued : List Grp}
         intro hpn
         rcases hn mf hp.cur k hk v hv with h1 | h1
         · omega
-        · have := h1 p hpr.1 hpn
-          simp [LogFile.all] at this
-          rw [this.1] at hxp
-          simp at hxp
+        · exact h1 p hpr.1 hpn x (by simp [LogFile.all, hxp]) hx
     · exact hok.jnf
   · intro q hq; exact hp.jasc q (hrel _ q hq)
   · intro q hq q' hq' hlt x hx y hy; exact hp.jord q (hrel _ q hq) q' (hrel _ q' hq') hlt x hx y hy
